@@ -30,7 +30,7 @@ func main() {
 		os.Exit(2)
 	}
 	seed, _ = strconv.ParseInt(envOr("VERIF_SEED", "0"), 10, 64)
-	if outDir == "" && os.Args[1] != "dump" {
+	if outDir == "" && os.Args[1] != "dump" && os.Args[1] != "dsl" {
 		fmt.Fprintln(os.Stderr, "kmsggen: VERIF_GEN_OUT not set")
 		os.Exit(2)
 	}
@@ -40,6 +40,8 @@ func main() {
 		genC16(gm)
 	case "c15":
 		genC15(gm)
+	case "dsl":
+		dumpDSL()
 	case "dump":
 		for _, s := range gm.CodecTypes() {
 			e, d := gm.allocShape(s.Name)
@@ -66,3 +68,31 @@ func rnd(k uint64) uint64 {
 	z = (z ^ (z >> 27)) * 0x94D049BB133111EB
 	return z ^ (z >> 31)
 }
+
+func init() {
+	dumpDSL = func() {
+		d := loadDSL(repoRoot + "/generate/definitions")
+		for _, e := range d.Errors {
+			fmt.Println("ERR", e)
+		}
+		n := 0
+		var cnt func(fs []*DField)
+		cnt = func(fs []*DField) {
+			for _, f := range fs {
+				n++
+				if f.T != nil && f.T.Struct != nil && f.T.Struct.Anonymous {
+					cnt(f.T.Struct.Fields)
+				}
+				if f.T != nil && f.T.Elem != nil && f.T.Elem.Struct != nil && f.T.Elem.Struct.Anonymous {
+					cnt(f.T.Elem.Struct.Fields)
+				}
+			}
+		}
+		for _, name := range d.Order {
+			cnt(d.Structs[name].Fields)
+		}
+		fmt.Println(len(d.Structs), "structs", n, "fields", len(d.Enums), "enums")
+	}
+}
+
+var dumpDSL func()
